@@ -24,7 +24,7 @@ ASSUMPTIONS = ["children excluded because reference definitions legitimately act
 def floors(tier):
     q = tier == "quick"
     return {"pairs.admissible": 30000 if q else 800000, "A_ends.list": 2000, "A_ends.blockquote": 2000, "A_ends.fence": 500, "A_ends.table": 200,
-            "B_starts.nonparagraph": 10000, "chains": 2000, "skipped.A_open": 100, "B.battery": 10000}
+            "B_starts.nonparagraph": 10000, "chains": 2000, "skipped.A_open": 100, "B.battery": 10000, "hook.parses": 5000}
 
 
 def blocks(toks, shift=0):
@@ -101,6 +101,41 @@ def law(md, A, B, ctx=None):
     if len(got) == len(want) and all(g == w or (g["type"] in LIST_OPEN and i < len(bA)) for i, (g, w) in enumerate(zip(got, want))):
         return "container-map-absorbs-blank-line", d
     return "map-end-over-blank-lines", d
+
+
+# ---- amplifier (invariant at a hook): steers the search, never the verdict --------------------------------------------------
+def hooked_instance(conf):
+    """monitoring instance whose block rules are wrapped (through the public Ruler.at) so that after every successful top-level
+    rule the state a LATER block can see is compared with a fresh state's; differences are recorded in md._vf_alarms"""
+    from markdown_it.rules_block.state_block import StateBlock
+    md = C.build(conf)
+    md._vf_alarms = []
+    ruler = md.block.ruler
+    for rule in list(ruler.__rules__):
+        def wrap(fn, name):
+            def w(state, startLine, endLine, silent):
+                ok = fn(state, startLine, endLine, silent)
+                if ok and not silent and state.level == 0 and state.blkIndent == 0 and startLine < state.line:
+                    fresh = getattr(state, "_vf_fresh", None)
+                    if fresh is None:
+                        fresh = state._vf_fresh = StateBlock(state.src, state.md, {}, [])
+                    diffs = []
+                    for f in ("blkIndent", "listIndent", "lineMax", "ddIndent"):
+                        if getattr(state, f) != getattr(fresh, f):
+                            diffs.append(f)
+                    ln = state.line
+                    for tab in ("bMarks", "eMarks", "tShift", "sCount", "bsCount"):
+                        if getattr(state, tab)[ln:] != getattr(fresh, tab)[ln:]:
+                            diffs.append(tab)
+                    if diffs:
+                        md._vf_alarms.append((name, ln, diffs))
+                return ok
+            return w
+        ruler.at(rule.name, wrap(rule.fn, rule.name), {"alt": list(rule.alt)})
+    return md
+
+
+_hooked = {}
 
 
 def check_case(ctx, case, minimize=True):
@@ -192,6 +227,30 @@ def run(ctx):
         case = {"conf": conf, "A": A, "B": B}
         before = ctx.counters["pairs.admissible"]
         check_case(ctx, case)
+        if k % 4 == 0:
+            # amplifier: if a top-level rule left future-visible state behind while parsing A, try every battery follower on this A
+            cid = C.conf_id(conf)
+            hm = _hooked.get(cid)
+            if hm is None:
+                if len(_hooked) > 300:
+                    _hooked.clear()
+                hm = _hooked[cid] = hooked_instance(conf)
+            del hm._vf_alarms[:]
+            try:
+                hm.parse(A)
+            except Exception:
+                pass
+            ctx.count("hook.parses")
+            if hm._vf_alarms:
+                ctx.count("hook.alarms")
+                before_v = sum(ctx.vcount.values())
+                for B2 in battery:
+                    check_case(ctx, {"conf": conf, "A": A, "B": B2}, minimize=False)
+                if sum(ctx.vcount.values()) == before_v:
+                    ctx.count("hook.alarms_unconfirmed")
+                    ctx.info.setdefault("unconfirmed_hook_alarms", [])
+                    if len(ctx.info["unconfirmed_hook_alarms"]) < 5:
+                        ctx.info["unconfirmed_hook_alarms"].append({"A": A[:120], "alarms": [list(map(str, a)) for a in hm._vf_alarms[:3]]})
         if ctx.counters["pairs.admissible"] > before:
             ctx.nontrivial(C.conf_id(conf), A, B)
         if k % 2999 == 0:
